@@ -4,6 +4,7 @@ package props
 
 import (
 	"fmt"
+	"math/rand/v2"
 	"slices"
 	"sort"
 
@@ -23,9 +24,9 @@ func init() {
 				Flavours: []string{"plain", "cover"},
 				Blocks:   16,
 				Procs:    16,
-				Rule: "exhaustive over a universe of 5 elements: every (receiver, argument) pair of the 34 operands {nil, empty non-nil, 32 subsets incl. a second empty} for Intersects/IsSubset/Equals/AddAll/RemoveAll; every receiver x every argument list of length <= 3 (<= 4 thorough) with repetitions for HasAll/HasAny/Add/Remove/New; every 0..3-operand combination and random 4..12-operand combinations for Intersect; Append into prefixes with every amount of spare capacity from 0 to len+6; Clone/Keys/Values/Range/NewSize/Slice/Append/Pop/Clear/IsEmpty/Len/Has on every operand; results checked for value, non-nilness and non-aliasing (mutating the result must not change an argument and vice versa). " +
+				Rule: "large sets (0..3000 elements per side in every size relation, 0..1000 shared elements incl. 31..34, 63..66, 127..129, 255..257) against Go maps for all binary operations, long variadic lists, Intersect, Clone, Slice, Append; exhaustive over a universe of 5 elements: every (receiver, argument) pair of the 34 operands {nil, empty non-nil, 32 subsets incl. a second empty} for Intersects/IsSubset/Equals/AddAll/RemoveAll; every receiver x every argument list of length <= 3 (<= 4 thorough) with repetitions for HasAll/HasAny/Add/Remove/New; every 0..3-operand combination and random 4..12-operand combinations for Intersect; Append into prefixes with every amount of spare capacity from 0 to len+6; Clone/Keys/Values/Range/NewSize/Slice/Append/Pop/Clear/IsEmpty/Len/Has on every operand; results checked for value, non-nilness and non-aliasing (mutating the result must not change an argument and vice versa). " +
 					"Histories of Add/AddAll/Remove/RemoveAll/Pop/Clear over two sets (the second used as argument of the first), starting from nil or non-nil, with membership and Len of BOTH sets after every step. distinct = enumerated operand tuples, histories by hash; non-trivial = at least one operand is non-empty",
-				Required:     []string{"binary_predicate_pairs", "variadic_cases", "variadic_with_duplicates", "intersect_cases", "aliasing_checks", "pop_checks", "history_steps", "nil_receiver_cases", "intersect_many_operands", "append_spare_capacity_cases", "second_handle_checks"},
+				Required:     []string{"binary_predicate_pairs", "variadic_cases", "variadic_with_duplicates", "intersect_cases", "aliasing_checks", "pop_checks", "history_steps", "nil_receiver_cases", "intersect_many_operands", "append_spare_capacity_cases", "second_handle_checks", "large_set_cases"},
 				Exhaustive:   true,
 				Assumptions:  []string{"reference: 5-bit masks"},
 				CoverPkgs:    []string{"github.com/creachadair/mds/mapset"},
@@ -629,4 +630,151 @@ func runC18(c *fw.Ctx) {
 		h.U64(r.Uint64())
 		c.Seen(h.Sum())
 	}
+	// large sets in every size relation and with every amount of overlap
+	for k := 0; k < c.Pick(400, 6000); k++ {
+		if !c.Begin(1<<22 + k) {
+			continue
+		}
+		r := c.Rng()
+		ok, pv, stack := fw.Try(func() { c18large(c, r) })
+		if !ok {
+			c.FailKind("panic", map[string]any{"phase": "large sets"}, "panic: %v\n%s", pv, stack)
+		}
+	}
+}
+
+// c18large: the same operations on sets of tens to thousands of elements, in
+// every size relation (receiver much smaller / equal / much larger than the
+// argument) and with every amount of overlap (0, 1, 31..34, 63..66, half, all),
+// against Go maps as reference.
+func c18large(c *fw.Ctx, r *rand.Rand) {
+	ovs := []int{0, 1, 2, 7, 8, 9, 15, 16, 17, 31, 32, 33, 34, 63, 64, 65, 66, 100, 127, 128, 129, 255, 256, 257, 1000}
+	shared := ovs[r.IntN(len(ovs))]
+	onlyS := []int{0, 1, 3, 40, 300, 3000}[r.IntN(6)]
+	onlyT := []int{0, 1, 3, 40, 300, 3000}[r.IntN(6)]
+	base := r.IntN(1000) - 500
+	mk := func() (mapset.Set[int], mapset.Set[int], map[int]bool, map[int]bool) {
+		s, t := mapset.New[int](), mapset.New[int]()
+		rs, rt := map[int]bool{}, map[int]bool{}
+		for i := 0; i < shared; i++ {
+			v := base + 3*i
+			s.Add(v)
+			t.Add(v)
+			rs[v], rt[v] = true, true
+		}
+		for i := 0; i < onlyS; i++ {
+			v := base + 3*i + 1
+			s.Add(v)
+			rs[v] = true
+		}
+		for i := 0; i < onlyT; i++ {
+			v := base + 3*i + 2
+			t.Add(v)
+			rt[v] = true
+		}
+		return s, t, rs, rt
+	}
+	same := func(s mapset.Set[int], ref map[int]bool) bool {
+		if len(s) != len(ref) {
+			return false
+		}
+		for k := range ref {
+			if !s.Has(k) {
+				return false
+			}
+		}
+		return true
+	}
+	data := map[string]any{"shared_elements": shared, "only_in_receiver": onlyS, "only_in_argument": onlyT}
+	fail := func(format string, args ...any) { c.Fail(data, format, args...) }
+	s, t, rs, rt := mk()
+	if got, want := s.Intersects(t), shared > 0; got != want {
+		fail("Intersects = %v want %v", got, want)
+		return
+	}
+	if got, want := s.IsSubset(t), onlyS == 0; got != want {
+		fail("IsSubset = %v want %v", got, want)
+		return
+	}
+	if got, want := s.Equals(t), onlyS == 0 && onlyT == 0; got != want {
+		fail("Equals = %v want %v", got, want)
+		return
+	}
+	if !same(s, rs) || !same(t, rt) {
+		fail("a predicate modified an operand")
+		return
+	}
+	// RemoveAll in both directions
+	{
+		a, b, ra, _ := mk()
+		ret := a.RemoveAll(b)
+		want := map[int]bool{}
+		for k := range ra {
+			if !rt[k] {
+				want[k] = true
+			}
+		}
+		if !same(a, want) || !same(ret, want) || !same(b, rt) {
+			fail("RemoveAll: receiver has %d elements, returned set %d, want the difference of %d elements (argument afterwards %d, was %d)", len(a), len(ret), len(want), len(b), len(rt))
+			return
+		}
+		a2, b2, _, _ := mk()
+		ret2 := b2.RemoveAll(a2)
+		want2 := map[int]bool{}
+		for k := range rt {
+			if !rs[k] {
+				want2[k] = true
+			}
+		}
+		if !same(b2, want2) || !same(ret2, want2) || !same(a2, rs) {
+			fail("RemoveAll (argument and receiver exchanged): receiver has %d elements, want %d", len(b2), len(want2))
+			return
+		}
+	}
+	// AddAll, Remove/Add/HasAll/HasAny with long argument lists
+	{
+		a, b, _, _ := mk()
+		a.AddAll(b)
+		if len(a) != shared+onlyS+onlyT || !same(b, rt) {
+			fail("AddAll: union has %d elements, want %d", len(a), shared+onlyS+onlyT)
+			return
+		}
+		a3, b3, _, _ := mk()
+		items := b3.Slice()
+		if got, want := a3.HasAll(items...), onlyT == 0; got != want {
+			fail("HasAll(all %d elements of the argument) = %v want %v", len(items), got, want)
+			return
+		}
+		if got, want := a3.HasAny(items...), shared > 0; got != want {
+			fail("HasAny(all %d elements of the argument) = %v want %v", len(items), got, want)
+			return
+		}
+		a3.Remove(items...)
+		if len(a3) != onlyS {
+			fail("Remove(all %d elements of the argument): %d elements left, want %d", len(items), len(a3), onlyS)
+			return
+		}
+		a3.Add(items...)
+		if len(a3) != onlyS+len(items) {
+			fail("Add(%d items): %d elements, want %d", len(items), len(a3), onlyS+len(items))
+			return
+		}
+	}
+	// Intersect of two and three operands, Clone, Slice/Append
+	{
+		a, b, _, _ := mk()
+		in := mapset.Intersect(a, b)
+		in3 := mapset.Intersect(b, a, b.Clone())
+		if len(in) != shared || len(in3) != shared || !in.IsSubset(a) || !in.IsSubset(b) || !in3.Equals(in) {
+			fail("Intersect has %d / %d elements, want %d", len(in), len(in3), shared)
+			return
+		}
+		cl := a.Clone()
+		if !same(cl, rs) || len(a.Slice()) != len(rs) || len(a.Append(make([]int, 2, 5))) != len(rs)+2 {
+			fail("Clone/Slice/Append of a set of %d elements have %d / %d / %d elements", len(rs), len(cl), len(a.Slice()), len(a.Append(make([]int, 2, 5)))-2)
+			return
+		}
+	}
+	c.Add("large_set_cases", 1)
+	c.Step()
 }
